@@ -56,10 +56,18 @@ fn stub_send_iovec_all<H: MsgHeader>(_s: &mut Endpoint<H>, iovs: &[&[u8]], fds: 
     }
 }
 
+// the single-sendmsg primitive must not be used directly by the message senders: a partial write would be left unresumed
+static mut S_BYPASS: usize = 0;
+fn stub_send_iovec_direct<H: MsgHeader>(_s: &mut Endpoint<H>, _iovs: &[&[u8]], _fds: Option<&[RawFd]>) -> Result<usize> {
+    unsafe { S_BYPASS += 1; }
+    Ok(kani::any())
+}
+
 // send_message: exactly one call handing over [hdr bytes, body bytes] and the caller's descriptors;
 // Ok iff the primitive took header + body completely.
 #[kani::proof]
 #[kani::stub(Endpoint::<H>::send_iovec_all, stub_send_iovec_all)]
+#[kani::stub(Endpoint::<H>::send_iovec, stub_send_iovec_direct)]
 #[kani::unwind(5)]
 fn c08_send_message_frame() {
     let mut e = ep();
@@ -78,11 +86,13 @@ fn c08_send_message_frame() {
         assert!(if with_fd { S_FDS == 1 && S_FD0 == fd } else { S_FDS == -1 });
         assert!(r.is_ok() == (!S_FAIL && S_RET == 20));
     }
+    unsafe { assert!(S_BYPASS == 0); }   // every byte goes through the resuming loop
     core::mem::forget(e);
 }
 
 #[kani::proof]
 #[kani::stub(Endpoint::<H>::send_iovec_all, stub_send_iovec_all)]
+#[kani::stub(Endpoint::<H>::send_iovec, stub_send_iovec_direct)]
 #[kani::unwind(5)]
 fn c08_send_header_frame() {
     let mut e = ep();
@@ -93,11 +103,13 @@ fn c08_send_header_frame() {
         assert!(S_CALLS == 1 && S_NIOV == 1 && S_LEN[0] == 12 && S_PTR[0] == (&hdr as *const Hdr) as usize && S_FDS == -1);
         assert!(r.is_ok() == (!S_FAIL && S_RET == 12));
     }
+    unsafe { assert!(S_BYPASS == 0); }   // every byte goes through the resuming loop
     core::mem::forget(e);
 }
 
 #[kani::proof]
 #[kani::stub(Endpoint::<H>::send_iovec_all, stub_send_iovec_all)]
+#[kani::stub(Endpoint::<H>::send_iovec, stub_send_iovec_direct)]
 #[kani::unwind(5)]
 fn c08_send_message_with_payload_frame() {
     let mut e = ep();
@@ -115,12 +127,14 @@ fn c08_send_message_with_payload_frame() {
         assert!(S_FDS == -1);
         assert!(r.is_ok() == (!S_FAIL && S_RET == 24 + plen));
     }
+    unsafe { assert!(S_BYPASS == 0); }   // every byte goes through the resuming loop
     core::mem::forget(e);
 }
 
 // over-long payloads / too many descriptors are refused before anything is handed to the socket
 #[kani::proof]
 #[kani::stub(Endpoint::<H>::send_iovec_all, stub_send_iovec_all)]
+#[kani::stub(Endpoint::<H>::send_iovec, stub_send_iovec_direct)]
 #[kani::unwind(5)]
 fn c08_send_message_with_payload_limits() {
     let mut e = ep();
@@ -134,6 +148,7 @@ fn c08_send_message_with_payload_limits() {
     unsafe {
         if plen > 4096 - 12 { assert!(r.is_err() && S_CALLS == 0); } else { assert!(r.is_ok() && S_CALLS == 1); }
     }
+    unsafe { assert!(S_BYPASS == 0); }   // every byte goes through the resuming loop
     core::mem::forget(e);
 }
 
@@ -261,8 +276,16 @@ unsafe fn stub_recv_into_iovec_all<H: MsgHeader>(_s: &mut Endpoint<H>, iovs: &mu
     Ok((n, None))
 }
 
+// the single-recvmsg primitive must not be used directly by the message receivers: a message delivered in segments would be cut
+static mut R_BYPASS: usize = 0;
+unsafe fn stub_recv_into_iovec_direct<H: MsgHeader>(_s: &mut Endpoint<H>, _iovs: &mut [iovec]) -> Result<(usize, Option<Vec<File>>)> {
+    R_BYPASS += 1;
+    Err(Error::BackendInternalError)
+}
+
 #[kani::proof]
 #[kani::stub(Endpoint::<H>::recv_into_iovec_all, stub_recv_into_iovec_all)]
+#[kani::stub(Endpoint::<H>::recv_into_iovec, stub_recv_into_iovec_direct)]
 #[kani::stub(VhostUserMsgHeader::<R>::get_code, stub_get_code)]
 #[kani::unwind(5)]
 fn c08_recv_header_classification() {
@@ -278,11 +301,13 @@ fn c08_recv_header_classification() {
         Err(Error::BackendInternalError) => {}
         Err(_) => assert!(false),
     }
+    unsafe { assert!(R_BYPASS == 0); }   // every receive goes through the reassembly loop
     core::mem::forget(e);
 }
 
 #[kani::proof]
 #[kani::stub(Endpoint::<H>::recv_into_iovec_all, stub_recv_into_iovec_all)]
+#[kani::stub(Endpoint::<H>::recv_into_iovec, stub_recv_into_iovec_direct)]
 #[kani::stub(VhostUserMsgHeader::<R>::get_code, stub_get_code)]
 #[kani::unwind(5)]
 fn c08_recv_body_classification() {
@@ -297,11 +322,13 @@ fn c08_recv_body_classification() {
         Err(Error::BackendInternalError) => {}
         Err(_) => assert!(false),
     }
+    unsafe { assert!(R_BYPASS == 0); }   // every receive goes through the reassembly loop
     core::mem::forget(e);
 }
 
 #[kani::proof]
 #[kani::stub(Endpoint::<H>::recv_into_iovec_all, stub_recv_into_iovec_all)]
+#[kani::stub(Endpoint::<H>::recv_into_iovec, stub_recv_into_iovec_direct)]
 #[kani::stub(VhostUserMsgHeader::<R>::get_code, stub_get_code)]
 #[kani::unwind(5)]
 fn c08_recv_payload_into_buf_classification() {
@@ -319,6 +346,7 @@ fn c08_recv_payload_into_buf_classification() {
         Err(Error::BackendInternalError) => {}
         Err(_) => assert!(false),
     }
+    unsafe { assert!(R_BYPASS == 0); }   // every receive goes through the reassembly loop
     core::mem::forget(e);
 }
 
